@@ -77,6 +77,9 @@ func genXCase(t *rapid.T, mode string) XCase {
 	}
 	c.NoCB = rapid.IntRange(0, 3).Draw(t, "noCallback") == 0
 	c.Iface = rapid.IntRange(0, 2).Draw(t, "interfaceTypedValue") == 0
+	if rapid.Bool().Draw(t, "errorShaped") { // every other case: the failing creations return another shape of error value
+		c.ErrKind = rapid.IntRange(0, NErrKinds-1).Draw(t, "errkind")
+	}
 	if free {
 		c.FailPct = rapid.SampledFrom([]int{0, 20, 50}).Draw(t, "failpct")
 		c.Yields = rapid.IntRange(0, 4).Draw(t, "yields")
@@ -111,6 +114,7 @@ func recordXCase(prop string, c XCase, info XInfo, mode string) {
 	add(info.Overlap, "two_workers_in_getorcreate_of_one_key")
 	add(info.MidMutation, "removal_between_creation_start_and_insertion")
 	add(c.Iface, "interface_typed_value")
+	add(normErr(c.ErrKind) != ErrPlain, "failing_creations_return_error_"+errKindNames[normErr(c.ErrKind)])
 	add(info.NilCreated > 0, "iface_creation_returned_nil_value")
 	add(info.NilDeleted > 0, "iface_nil_value_passed_to_delete_callback")
 	add(info.NilHits > 0, "iface_hit_or_wait_returned_nil_value")
